@@ -36,6 +36,7 @@ class RConcHarness:
         w = RWorld(chooser, topo.router, faults=self.faults, cancel_steps=self.cancel_steps, fault_kinds=kinds, timers=self.timers)
         import trio
         times = {}
+        served = self._served = {}
         pool = scen.make_pool(ct, w.backend, "async", max_connections=self.max_connections)
         specs = []
         for i, cs in enumerate(self.callers):
@@ -48,7 +49,12 @@ class RConcHarness:
             ext = {}
             for o in opts:
                 if o.startswith("pt="):
-                    ext = {"timeout": {"pool": float(o[3:])}}
+                    # the first trace event of a request is emitted once a connection has been handed to it: that instant,
+                    # not the end of the whole exchange, is what the pool timeout limits (another caller's deadline may
+                    # move the clock while this one is already being served)
+                    async def _tr(ev, info, name=f"c{i}"):
+                        served.setdefault(name, trio.current_time())
+                    ext = {"timeout": {"pool": float(o[3:])}, "trace": _tr}
 
             def mk(kind=kind, url=url, tok=tok, ext=ext, name=f"c{i}"):
                 async def prog():
@@ -133,7 +139,8 @@ class RConcHarness:
             elif r[0] == "exc":
                 ex.violations.append(Violation("C16.pool-timeout-class", f"caller {name}: {exc_class(r[1])}: {r[1]} instead of PoolTimeout / an answer | {desc}",
                                                dict(sig, kind="pool-timeout-class")))
-            elif r[0] == "ok" and waited > pt:
+            elif r[0] == "ok" and round(self._served.get(name, times[name][1]) - times[name][0], 6) > pt:
+                waited = round(self._served.get(name, times[name][1]) - times[name][0], 6)
                 ex.violations.append(Violation("C16.pool-timeout-missed", f"caller {name} was served after waiting {waited}s in a pool with pool timeout {pt}s (no connection was handed to it in time?) | {desc}",
                                                dict(sig, kind="pool-timeout-missed")))
 
